@@ -46,13 +46,70 @@ class Program:
     def local_insts(self):
         return [i for i in self.insts if i["local"]]
 
+    def live_blocks(self, inst):
+        """Blocks reachable from the entry when branches on compile-time constants
+        (`cfg!(debug_assertions)`, `if false`) are pruned."""
+        c = inst.get("_live")
+        if c is not None:
+            return c
+        b = inst["body"]
+        blocks = b["blocks"]
+        seen = set()
+        work = [0]
+        while work:
+            n = work.pop()
+            if n in seen:
+                continue
+            seen.add(n)
+            bl = blocks[n]
+            t = bl["term"]
+            k = t["k"]
+            nxt = []
+            if k == "goto":
+                nxt = [t["t"]]
+            elif k == "switch":
+                cv = None
+                o = t["o"]
+                if o["k"] == "const" and o["v"].get("k") == "int":
+                    cv = o["v"]["v"]
+                elif o["k"] in ("copy", "move") and not o["p"]["pr"]:
+                    l = o["p"]["l"]
+                    for s in bl["stmts"]:
+                        if s["k"] == "assign" and s["p"]["l"] == l and not s["p"]["pr"]:
+                            r = s["r"]
+                            if r["k"] == "use" and r["o"]["k"] == "const" and r["o"]["v"].get("k") == "int":
+                                cv = r["o"]["v"]["v"]
+                            elif r["k"] == "use" and r["o"]["k"] == "runtime_checks":
+                                w = r["o"]["what"]
+                                cv = int(self.ub_checks) if w == "UbChecks" else (int(self.overflow_checks) if w == "OverflowChecks" else 0)
+                            else:
+                                cv = None
+                if cv is not None:
+                    tgt = t["otherwise"]
+                    for tv, bb in t["targets"]:
+                        if tv == cv:
+                            tgt = bb
+                    nxt = [tgt]
+                else:
+                    nxt = [bb for _, bb in t["targets"]] + [t["otherwise"]]
+            elif k in ("call", "drop", "assert"):
+                if t.get("t") is not None:
+                    nxt = [t["t"]]
+            work.extend(nxt)
+        inst["_live"] = seen
+        return seen
+
     def callees(self, inst, include_drops=True):
-        """(callee instance id, terminator, block index) for every Call/Drop in the body."""
+        """(callee instance id, terminator, block index) for every Call/Drop in a block that is
+        reachable when constant branches are pruned."""
         out = []
         b = inst["body"]
         if not b:
             return out
+        live = self.live_blocks(inst)
         for bi, bl in enumerate(b["blocks"]):
+            if bi not in live:
+                continue
             t = bl["term"]
             if t["k"] == "call":
                 out.append((t["callee"], t, bi))
@@ -107,8 +164,8 @@ class Program:
         return out
 
 
-_LT = re.compile(r"::<'_(?:, '_)*>")
-_LT2 = re.compile(r"<'_(?:, '_)*>")
+_LT = re.compile(r"::<'[a-z_0-9]+(?:, '[a-z_0-9]+)*>")
+_LT2 = re.compile(r"<'[a-z_0-9]+(?:, '[a-z_0-9]+)*>")
 
 
 def norm_path(p):
